@@ -883,3 +883,493 @@ Proof.
   intros H1 H2 H. unfold Inv. rewrite prepare_reset_core, prepare_reset_deep.
   apply (InvV_open m p (core s) (deep s) acc); assumption.
 Qed.
+
+(* ------------------------------------------------------------------ walking through a model function *)
+Lemma ArmS_frame m s s' : core s' = core s -> deep s' = deep s -> ArmS m s -> ArmS m s'.
+Proof.
+  intros C D [A1 A2]. pose proof (core_fields _ _ C) as (F1 & _). pose proof (deep_fields _ _ D) as (_ & _ & _ & _ & G5 & G6 & G7 & _ & G9 & _).
+  unfold ArmS, is_secured. rewrite F1, G5, G6, G7, G9. split; assumption.
+Qed.
+
+Lemma Inv_frame_fun m p (g : state -> state) acc :
+  (forall x, core (g x) = core x) -> (forall x, deep (g x) = deep x) -> forall s, Inv m p s acc -> Inv m p (g s) acc.
+Proof. intros C D s. apply Inv_frame; auto. Qed.
+Lemma ArmS_frame_fun m (g : state -> state) :
+  (forall x, core (g x) = core x) -> (forall x, deep (g x) = deep x) -> forall s, ArmS m s -> ArmS m (g s).
+Proof. intros C D s. apply ArmS_frame; auto. Qed.
+
+(* peel one state transformer off the state of the goal; the side conditions are proved for a
+   variable state, so that neither the tactic nor the kernel ever compares two large states *)
+Ltac frame_side_core := intro; first [ reflexivity | autorewrite with ncore; reflexivity ].
+Ltac frame_side_deep := intro; first [ reflexivity | autorewrite with ndeep; reflexivity ].
+Ltac peel :=
+  lazymatch goal with
+  | |- Inv _ _ (h_add _ _) _ => apply Inv_h_add_arm; [ | discriminate | ]
+  | |- Inv _ _ (h_del _ _) _ => apply Inv_h_del; [ discriminate | ]
+  | |- Inv _ _ (id_add _ _) _ => apply Inv_id_add
+  | |- Inv _ _ (id_del _ _) _ => apply Inv_id_del
+  | |- Inv _ _ (?g ?s') _ =>
+      lazymatch type of s' with state => idtac end;
+      apply (Inv_frame_fun _ _ g); [ frame_side_core | frame_side_deep | ]
+  | |- ArmS _ (?g ?s') =>
+      lazymatch type of s' with state => idtac end;
+      apply (ArmS_frame_fun _ g); [ frame_side_core | frame_side_deep | ]
+  end.
+Ltac ret_simpl := cbn [ret fst snd]; repeat match goal with |- context [?a ++ []] => rewrite (app_nil_r a) end.
+
+Lemma auth_no_tls fuel now s : tls_support s = false -> auth fuel now s = auth 0 now s.
+Proof. intros H. destruct fuel; cbn [auth]; rewrite H; reflexivity. Qed.
+
+Lemma ArmS_h_add m k s : ArmS m s -> ArmS m (h_add k s).
+Proof. intros [A1 A2]. unfold ArmS, is_secured, h_add. destruct (h_has k s); sproj; split; assumption. Qed.
+Lemma ArmS_id_add m k s : ArmS m s -> ArmS m (id_add k s).
+Proof. intros [A1 A2]. unfold ArmS, is_secured, id_add. destruct (id_has k s); sproj; split; assumption. Qed.
+
+Lemma auth_legacy_inv m p now s acc : ArmS m s -> Inv m p s acc -> Inv m p (auth_legacy now s) acc.
+Proof.
+  intros A H. unfold auth_legacy. case_goal; repeat peel; assumption.
+Qed.
+
+(* _auth once the TLS probe is out of the way and the mandatory-TLS check passes *)
+Lemma auth_armed m fuel now s acc : ArmS m s -> tls_support s = false -> Inv m None s acc ->
+  Inv m None (fst (auth fuel now s)) (acc ++ snd (auth fuel now s)).
+Proof.
+  intros A Hts H. rewrite (auth_no_tls fuel now s Hts). cbn [auth]. rewrite Hts.
+  destruct (f_tls_mandatory s && negb (is_secured s)) eqn:D.
+  - (* only possible when already disconnected *)
+    destruct (st s) eqn:E.
+    + rewrite conn_disconnect_idle by assumption. ret_simpl. exact H.
+    + exfalso. apply andb_true_iff in D. destruct D as [D1 D2]. destruct A as [_ A2]. rewrite A2 in D2; [discriminate|congruence|assumption].
+    + exfalso. apply andb_true_iff in D. destruct D as [D1 D2]. destruct A as [_ A2]. rewrite A2 in D2; [discriminate|congruence|assumption].
+  - repeat (case_goal; ret_simpl); repeat peel; try assumption; try (apply auth_legacy_inv; assumption).
+Qed.
+
+(* the error handler is registered (needed when the open handler is replaced) *)
+Definition HE (s : state) : Prop := st s <> Disconnected -> is_raw s = false -> In HError (hkinds s).
+Lemma HE_frame s s' : core s' = core s -> deep s' = deep s -> HE s -> HE s'.
+Proof.
+  intros C D H. pose proof (core_fields _ _ C) as (F1 & _ & F3 & _). pose proof (deep_fields _ _ D) as (G1 & _).
+  unfold HE, hkinds. rewrite F1, F3, G1. exact H.
+Qed.
+Lemma HE_frame_fun (g : state -> state) :
+  (forall x, core (g x) = core x) -> (forall x, deep (g x) = deep x) -> forall s, HE s -> HE (g s).
+Proof. intros C D s. apply HE_frame; auto. Qed.
+Lemma HE_h_add k s : HE s -> HE (h_add k s).
+Proof.
+  intros H A B. apply hkinds_h_add. left. apply H.
+  - pose proof (core_fields _ _ (h_add_core k s)) as (F1 & _). rewrite <- F1. exact A.
+  - pose proof (core_fields _ _ (h_add_core k s)) as (_ & _ & F3 & _). rewrite <- F3. exact B.
+Qed.
+Lemma Inv_tlss m p s acc : Inv m p s acc -> tls_support s = false.
+Proof. intros H. apply (Dts _ _ (ID _ _ _ _ _ H)). Qed.
+Lemma Inv_HE p s acc : Inv MChunk p s acc -> HE s.
+Proof. intros H A B. destruct (IM _ _ _ _ _ H) as (_ & M2 & _). exact (M2 A B). Qed.
+
+Ltac peel2 :=
+  lazymatch goal with
+  | |- Inv _ _ (prepare_reset _ _) _ => apply Inv_prepare_reset; [ | | ]
+  | |- HE (h_add _ _) => apply HE_h_add
+  | |- HE (?g ?s') =>
+      lazymatch type of s' with state => idtac end;
+      apply (HE_frame_fun g); [ frame_side_core | frame_side_deep | ]
+  | |- ArmS _ (h_add _ _) => apply ArmS_h_add
+  | |- ArmS _ (id_add _ _) => apply ArmS_id_add
+  | _ => peel
+  end.
+
+Lemma sns_inv_eq m p s acc s' o : stream_negotiation_success s = (s', o) -> m <> MTop -> st s <> Disconnected ->
+  Inv m p s acc -> Inv m p s' (acc ++ o).
+Proof. intros E Hm Hs H. pose proof (sns_inv m p s acc Hm Hs H) as Q. rewrite E in Q. exact Q. Qed.
+Lemma auth_armed_eq m fuel now s acc s' o : auth fuel now s = (s', o) -> ArmS m s -> Inv m None s acc -> Inv m None s' (acc ++ o).
+Proof. intros E A H. pose proof (auth_armed m fuel now s acc A (Inv_tlss _ _ _ _ H) H) as Q. rewrite E in Q. exact Q. Qed.
+
+Lemma do_bind_inv m p now s acc : ArmS m s -> Inv m p s acc ->
+  Inv m p (fst (do_bind now true s)) (acc ++ snd (do_bind now true s)).
+Proof. intros A H. unfold do_bind. cbn [negb]. ret_simpl. repeat peel2; assumption. Qed.
+Lemma do_bind_inv_eq m p now s acc s' o : do_bind now true s = (s', o) -> ArmS m s -> Inv m p s acc -> Inv m p s' (acc ++ o).
+Proof. intros E A H. pose proof (do_bind_inv m p now s acc A H) as Q. rewrite E in Q. exact Q. Qed.
+Lemma session_start_inv m p now s acc : ArmS m s -> Inv m p s acc -> Inv m p (session_start now s) acc.
+Proof. intros A H. unfold session_start. repeat peel2; assumption. Qed.
+Lemma sm_enable_inv m p s acc : ArmS m s -> Inv m p s acc -> Inv m p (sm_enable s) acc.
+Proof. intros A H. unfold sm_enable. cbv zeta. repeat peel2; assumption. Qed.
+
+Lemma sasl_result_inv m now e s acc : ArmS m s -> HE s -> Inv m None s acc ->
+  Inv m None (fst (sasl_result now e s)) (acc ++ snd (sasl_result now e s)).
+Proof.
+  intros A He H. unfold sasl_result. destruct (e_name e); ret_simpl; try (repeat peel2; assumption).
+  - apply auth_armed; [assumption | exact (Inv_tlss _ _ _ _ H) | assumption].
+  - repeat peel2; try assumption. intros _. apply A.
+Qed.
+Lemma sasl_result_inv_eq m now e s acc s' o : sasl_result now e s = (s', o) -> ArmS m s -> HE s -> Inv m None s acc -> Inv m None s' (acc ++ o).
+Proof. intros E A He H. pose proof (sasl_result_inv m now e s acc A He H) as Q. rewrite E in Q. exact Q. Qed.
+
+Lemma features_sasl_inv m p now e s acc : ArmS m s -> Inv m p s acc ->
+  Inv m p (fst (features_sasl now e s)) (acc ++ snd (features_sasl now e s)).
+Proof.
+  intros A H. unfold features_sasl. cbv zeta.
+  repeat (case_goal; ret_simpl); try (apply do_bind_inv); repeat peel2; assumption.
+Qed.
+Lemma features_sasl_inv_eq m p now e s acc s' o : features_sasl now e s = (s', o) -> ArmS m s -> Inv m p s acc -> Inv m p s' (acc ++ o).
+Proof. intros E A H. pose proof (features_sasl_inv m p now e s acc A H) as Q. rewrite E in Q. exact Q. Qed.
+
+(* ------------------------------------------------------------------ stanza handlers *)
+Definition hbody (k : hkind) (now : Z) (e : elem) (s : state) : R :=
+  let '(s1, o1, keep) := call_handler k now e s in ((if keep then s1 else h_del k s1), o1).
+
+Lemma Inv_prepare_reset_arm m p h s acc : HE s -> ArmS m s -> Inv m p s acc -> Inv m p (prepare_reset h s) acc.
+Proof. intros He [A1 A2] H. apply Inv_prepare_reset; [exact He | intros _; exact A2 | exact H]. Qed.
+Lemma ArmS_chunk_live s : ArmS MChunk s -> st s <> Disconnected.
+Proof. intros [A1 _]. apply A1. left. reflexivity. Qed.
+
+Ltac peel3 :=
+  lazymatch goal with
+  | |- Inv _ _ (prepare_reset _ _) _ => apply Inv_prepare_reset_arm
+  | |- st _ <> Disconnected => apply ArmS_chunk_live
+  | |- MChunk <> MTop => discriminate
+  | _ => peel2
+  end.
+Ltac use_eq :=
+  match goal with
+  | E : stream_negotiation_success ?x = (?s', ?o') |- Inv _ _ ?s' (_ ++ ?o') => eapply sns_inv_eq; [exact E | | | ]
+  | E : auth _ _ ?x = (?s', ?o') |- Inv _ _ ?s' (_ ++ ?o') => eapply auth_armed_eq; [exact E | | ]
+  | E : sasl_result _ _ ?x = (?s', ?o') |- Inv _ _ ?s' (_ ++ ?o') => eapply sasl_result_inv_eq; [exact E | | | ]
+  | E : features_sasl _ _ ?x = (?s', ?o') |- Inv _ _ ?s' (_ ++ ?o') => eapply features_sasl_inv_eq; [exact E | | ]
+  | E : do_bind _ true ?x = (?s', ?o') |- Inv _ _ ?s' (_ ++ ?o') => eapply do_bind_inv_eq; [exact E | | ]
+  end.
+Ltac walk := repeat (case_goal; ret_simpl).
+Ltac finish := repeat first [ assumption | peel3 | use_eq | case_goal ].
+
+(* Inside-out walk: the goal is  RInv m p acc E  with E the body of a model function.  Each
+   [let x := v in ..] whose value is a state is named, the three facts the later steps need are
+   proved for it (one layer over already abstract states), and its body is forgotten; conditionals
+   are split one at a time.  Terms stay small whatever the size of the function. *)
+Definition RInv (m : mode) (p : option (Z * bool)) (acc : emit) (r : R) : Prop := Inv m p (fst r) (acc ++ snd r).
+Ltac facts x' :=
+  lazymatch type of x' with
+  | state =>
+      lazymatch goal with
+      | |- RInv ?m ?p ?acc _ =>
+          assert (Inv m p x' acc) by (subst x'; walk; finish);
+          assert (ArmS m x') by (subst x'; walk; finish);
+          assert (HE x') by (subst x'; walk; finish);
+          clearbody x'
+      end
+  | _ => clearbody x'
+  end.
+(* the scrutinee that decides the head of E (through nested matches), or the let in head position *)
+Ltac find_scrut E :=
+  lazymatch E with
+  | let x := _ in _ => E
+  | match ?c with _ => _ end => find_scrut c
+  | if ?c then _ else _ => find_scrut c
+  | _ => E
+  end.
+Ltac head_step_with facts :=
+  lazymatch goal with
+  | |- RInv _ _ _ ?E =>
+      lazymatch E with
+      | match ?c with _ => _ end =>
+          let t := find_scrut c in
+          lazymatch t with
+          | let x := ?v in @?b x =>
+              let x' := fresh "x" in pose (x' := v); change t with (b x'); cbv beta iota; facts x'
+          | ret _ => unfold ret at 1; cbv beta iota
+          | (_, _) => cbv beta iota
+          | _ => destruct t eqn:?; cbv beta iota
+          end
+      | if ?c then _ else _ =>
+          let t := find_scrut c in
+          lazymatch t with
+          | let x := ?v in @?b x =>
+              let x' := fresh "x" in pose (x' := v); change t with (b x'); cbv beta iota; facts x'
+          | ret _ => unfold ret at 1; cbv beta iota
+          | (_, _) => cbv beta iota
+          | _ => destruct t eqn:?; cbv beta iota
+          end
+      | let x := ?v in @?b x =>
+          let x' := fresh "x" in pose (x' := v); change E with (b x'); cbv beta iota; facts x'
+      end
+  end.
+Ltac head_step := head_step_with facts.
+Ltac iwalk := repeat head_step.
+Ltac leaf := unfold RInv, ret; cbn [fst snd]; repeat match goal with |- context [?a ++ []] => rewrite (app_nil_r a) end; finish.
+
+(* handlers registered only after the mandatory-TLS check has been passed *)
+Lemma hbody_post_auth now e k s acc :
+  inN4 k = false -> ArmS MChunk s -> HE s -> Inv MChunk None s acc ->
+  RInv MChunk None acc (hbody k now e s).
+Proof.
+  intros Hk A He H. unfold hbody.
+  destruct k; try discriminate Hk; cbv beta iota delta [call_handler].
+  all: iwalk.
+  all: leaf.
+Qed.
+
+(* ------------------------------------------------------------------ the pre-authentication handlers *)
+Lemma Inv_neutral m p s acc l : forallb neutral l = true -> Inv m p s acc -> Inv m p s (acc ++ l).
+Proof. intros Hn H. now apply InvV_neutral. Qed.
+
+Lemma Inv_mode_down p s acc : Inv MChunk p s acc -> Inv MRun p s acc.
+Proof. intros [A B C D]. constructor; try assumption. apply D. Qed.
+Lemma Inv_mode_up p s acc :
+  HE s -> (st s = Disconnected -> near3 (deep s)) -> Inv MRun p s acc -> Inv MChunk p s acc.
+Proof. intros He Hn [A B C D]. constructor; try assumption. cbn [ModeI] in *. split; [exact D|]. split; [exact He|exact Hn]. Qed.
+
+Lemma InvV_core_change2 m p p' c c' d acc acc' :
+  c_st c' = c_st c -> c_raw c' = c_raw c -> c_alloc c' = c_alloc c ->
+  LifeI c' acc' -> SerrI p' c' d -> InvV m p c d acc -> InvV m p' c' d acc'.
+Proof.
+  intros E1 E2 E3 HL' HS' [HL HS [df dts dp dm dh0] HM].
+  constructor; [assumption | assumption | constructor | ]; rewrite ?E1, ?E2, ?E3; try assumption.
+  destruct m; cbn [ModeI] in *; unfold RunI in *; rewrite ?E1, ?E2, ?E3; assumption.
+Qed.
+
+(* _handle_error: stores what the observer has just recorded *)
+Lemma InvV_herror m p x c d acc :
+  c_serr c = Some x -> InvV m p c d acc ->
+  InvV m None (mkCore (c_st c) (c_nd c) (c_raw c) (c_alloc c) (c_crashed c) (Some x) (c_att c) (c_nc c) (c_ndisc c) (c_rawc c) (c_serr c) (c_sebad c)) d acc.
+Proof.
+  intros Hx H. apply (InvV_core_change2 m p None c _ d acc acc); [reflexivity | reflexivity | reflexivity | | | exact H].
+  - apply LifeI_irrelevant. apply H.
+  - destruct H as [_ [s1 s2 s3] _ _]. constructor; core_simpl; try assumption.
+    intros _ _. rewrite Hx. apply se_eqb_refl.
+Qed.
+
+(* TLS started from _handle_proceedtls_default; the handler is removed in the same step *)
+Lemma InvV_tls_ok m p c d acc l' :
+  (forall k, In k l' <-> In k (d_handlers d) /\ k <> HProceedTls) ->
+  (c_st c <> Disconnected -> c_raw c = false -> In HError (d_handlers d)) ->
+  InvV m p c d acc ->
+  InvV m p c (mkDeep l' (d_ids d) OpenTls (d_ps d) true true (d_tlsf d) (d_tlss d) (d_mand d) (d_dis d) true) acc.
+Proof.
+  intros Hl He [HL [s1 s2 s3] [df dts dp dm dh0] HM].
+  assert (Hsub : forall k, In k l' -> In k (d_handlers d)) by (intros k Q; apply Hl in Q; apply Q).
+  assert (HeP : In HError (d_handlers d) -> In HError l') by (intros Q; apply Hl; split; [exact Q|discriminate]).
+  constructor; [assumption | constructor | constructor | ]; unfold is_sec, near4, near3 in *; deep_simpl; try assumption.
+  - intros A B. left. auto.
+  - intros A B. apply Hl in B. destruct B as [_ B]. congruence.
+  - intros A B C. cbn [andb] in C. destruct (d_tlsf d) eqn:F; [|discriminate C].
+    assert (Q : d_secured d && negb true && d_tlsp d = false) by (rewrite andb_false_r; reflexivity).
+    destruct (dm A B Q) as (N1 & N2 & N3). split; [auto|]. split; [assumption|reflexivity].
+  - intros A B. exact (dh0 A (Hsub _ B)).
+  - assert (HR : RunI c d -> RunI c (mkDeep l' (d_ids d) OpenTls (d_ps d) true true (d_tlsf d) (d_tlss d) (d_mand d) (d_dis d) true)).
+    { unfold RunI; deep_simpl. intros (R1 & R2 & R3). split; [assumption|]. split; [assumption|]. intros A B. left. auto. }
+    assert (HN : near3 d -> near3 (mkDeep l' (d_ids d) OpenTls (d_ps d) true true (d_tlsf d) (d_tlss d) (d_mand d) (d_dis d) true)).
+    { unfold near3; deep_simpl. intros [N1 N2]. split; [|assumption]. auto. }
+    destruct m; cbn [ModeI] in *; deep_simpl.
+    + exact I.
+    + auto.
+    + destruct HM as (M1 & M2 & M3). split; [auto|]. split; [intros A B; auto|]. auto.
+    + destruct HM as (M1 & M2). split; [auto|]. intros E. destruct (M2 E) as [P1 [P2|P2]]; (split; [exact P1|]); [left; exact P2 | right; auto].
+Qed.
+
+Lemma InvV_tls_fail m p c d acc l' :
+  (forall k, In k l' <-> In k (d_handlers d) /\ k <> HProceedTls) ->
+  In HProceedTls (d_handlers d) ->
+  InvV m p c d acc ->
+  InvV m p c (mkDeep l' (d_ids d) (d_oh d) (d_ps d) (d_secured d) false true (d_tlss d) (d_mand d) (d_dis d) (d_rp d)) acc.
+Proof.
+  intros Hl Hin [HL [s1 s2 s3] [df dts dp dm dh0] HM].
+  assert (Hsub : forall k, In k l' -> In k (d_handlers d)) by (intros k Q; apply Hl in Q; apply Q).
+  assert (HeP : In HError (d_handlers d) -> In HError l') by (intros Q; apply Hl; split; [exact Q|discriminate]).
+  constructor; [assumption | constructor | constructor | ]; unfold is_sec, near4, near3 in *; deep_simpl; try assumption.
+  - intros A B. destruct (s3 A B) as [Q|Q]; [left; auto|right; exact Q].
+  - intros A B. apply Hl in B. destruct B as [_ B]. congruence.
+  - intros A B C.
+    assert (Q : d_secured d && negb (d_tlsf d) && d_tlsp d = false) by (rewrite (dp A Hin); reflexivity).
+    destruct (dm A B Q) as (N1 & N2 & N3). split; [auto|]. split; assumption.
+  - intros A B. exact (dh0 A (Hsub _ B)).
+  - assert (HR : RunI c d -> RunI c (mkDeep l' (d_ids d) (d_oh d) (d_ps d) (d_secured d) false true (d_tlss d) (d_mand d) (d_dis d) (d_rp d))).
+    { unfold RunI; deep_simpl. intros (R1 & R2 & R3). split; [assumption|]. split; [assumption|].
+      intros A B. destruct (R3 A B) as [Q|Q]; [left; auto|right; exact Q]. }
+    assert (HN : near3 d -> near3 (mkDeep l' (d_ids d) (d_oh d) (d_ps d) (d_secured d) false true (d_tlss d) (d_mand d) (d_dis d) (d_rp d))).
+    { unfold near3; deep_simpl. intros [N1 N2]. split; [|assumption]. auto. }
+    destruct m; cbn [ModeI] in *; deep_simpl.
+    + exact I.
+    + auto.
+    + destruct HM as (M1 & M2 & M3). split; [auto|]. split; [intros A B; auto|]. auto.
+    + destruct HM as (M1 & M2). split; [auto|]. intros E. destruct (M2 E) as [P1 [P2|P2]]; (split; [exact P1|]); [left; exact P2 | right; auto].
+Qed.
+
+Lemma hbody_user m p now e s acc : Inv m p s acc -> RInv m p acc (hbody HUser now e s).
+Proof. intros H. unfold hbody, RInv. cbn [call_handler fst snd]. apply Inv_neutral; [reflexivity|exact H]. Qed.
+
+Lemma hbody_error m p now e s acc :
+  g_serr (gh s) = Some (e_cond e, e_text e) ->
+  Inv m p s acc -> RInv m None acc (hbody HError now e s).
+Proof.
+  intros Hx H. unfold hbody, RInv. cbn [call_handler fst snd]. rewrite app_nil_r.
+  exact (InvV_herror m p _ (core s) (deep s) acc Hx H).
+Qed.
+
+Lemma hkinds_deep s : hkinds s = d_handlers (deep s).
+Proof. reflexivity. Qed.
+
+Lemma hbody_proceedtls now e s acc :
+  In HProceedTls (hkinds s) -> Inv MChunk None s acc -> RInv MChunk None acc (hbody HProceedTls now e s).
+Proof.
+  intros Hin H. pose proof (Inv_HE _ _ _ H) as He. unfold hbody, RInv. cbn [call_handler].
+  destruct (e_name e); try (cbn [fst snd]; rewrite app_nil_r; apply Inv_h_del; [discriminate|exact H]).
+  pose proof (conn_tls_start_spec s) as Q. destruct (conn_tls_start s) as [[s1 o] ok].
+  destruct Q as (C & Hn & [(Hok & Ho & D)|[(Hok & Hd & D)|(Hok & D)]]); subst ok; cbn [fst snd].
+  - subst o. rewrite app_nil_r. apply Inv_h_del; [discriminate|]. apply (Inv_frame _ _ s1); [apply xmpp_disconnect_core|apply xmpp_disconnect_deep|].
+    apply (Inv_frame _ _ s); assumption.
+  - apply Inv_neutral; [exact Hn|].
+    set (Y := conn_open_stream (prepare_reset OpenTls s1)).
+    assert (DY : deep Y = mkDeep (hkinds s) (d_ids (deep s)) OpenTls (d_ps (deep s)) true true (d_tlsf (deep s)) (d_tlss (deep s))
+                                (d_mand (deep s)) (d_dis (deep s)) true).
+    { unfold Y. rewrite conn_open_stream_deep, prepare_reset_deep, D. reflexivity. }
+    assert (CY : core Y = core s) by (unfold Y; rewrite conn_open_stream_core, prepare_reset_core; exact C).
+    unfold Inv. rewrite h_del_core, h_del_deep, CY, DY. cbn [d_ids d_oh d_ps d_secured d_tlsp d_tlsf d_tlss d_mand d_dis d_rp].
+    apply (InvV_tls_ok MChunk None (core s) (deep s) acc); [ | exact He | exact H].
+    intros k. rewrite hkinds_h_del, (hkinds_deep Y), DY. reflexivity.
+  - apply Inv_neutral; [exact Hn|].
+    set (Y := xmpp_disconnect now s1).
+    assert (DY : deep Y = mkDeep (hkinds s) (d_ids (deep s)) (d_oh (deep s)) (d_ps (deep s)) (d_secured (deep s)) false true (d_tlss (deep s))
+                                (d_mand (deep s)) (d_dis (deep s)) (d_rp (deep s))).
+    { unfold Y. rewrite xmpp_disconnect_deep, D. reflexivity. }
+    assert (CY : core Y = core s) by (unfold Y; rewrite xmpp_disconnect_core; exact C).
+    unfold Inv. rewrite h_del_core, h_del_deep, CY, DY. cbn [d_ids d_oh d_ps d_secured d_tlsp d_tlsf d_tlss d_mand d_dis d_rp].
+    apply (InvV_tls_fail MChunk None (core s) (deep s) acc); [ | exact Hin | exact H].
+    intros k. rewrite hkinds_h_del, (hkinds_deep Y), DY. reflexivity.
+Qed.
+
+(* _auth called from _handle_features (chunk mode, live connection), followed by the removal of the handler *)
+Lemma auth_features_tail fuel now x acc :
+  tls_support x = false -> st x <> Disconnected -> Inv MChunk None x acc ->
+  Inv MChunk None (h_del HFeatures (fst (auth fuel now x))) (acc ++ snd (auth fuel now x)).
+Proof.
+  intros Hts Hst H.
+  destruct (f_tls_mandatory x && negb (is_secured x)) eqn:D.
+  - (* mandatory TLS not satisfied: conn_disconnect *)
+    assert (E : auth fuel now x = conn_disconnect x).
+    { rewrite (auth_no_tls fuel now x Hts). cbn [auth]. rewrite Hts, D. reflexivity. }
+    rewrite E. apply andb_true_iff in D. destruct D as [D1 D2]. apply negb_true_iff in D2.
+    assert (N4 : near4 (deep x)) by (apply (DM _ _ (ID _ _ _ _ _ H)); assumption).
+    pose proof (conn_disconnect_inv MRun x acc (or_intror eq_refl) (Inv_mode_down _ _ _ H)) as Q.
+    destruct (conn_disconnect_frame x) as (F1 & F2 & _ & _ & F5).
+    assert (Ha : sm_alloc x = true) by (apply (K2 _ _ (IL _ _ _ _ _ H)); exact Hst).
+    specialize (F5 Hst Ha).
+    apply Inv_mode_up.
+    + intros A. exfalso. apply A.
+      pose proof (core_fields _ _ (h_del_core HFeatures (fst (conn_disconnect x)))) as (G1 & _). rewrite G1. exact F5.
+    + intros _. rewrite h_del_deep. unfold near3. cbn [d_handlers d_ids]. destruct N4 as (N1 & N2 & _). split.
+      * intros k Hk. apply hkinds_h_del in Hk. destruct Hk as [Hk Hne]. rewrite hkinds_deep, F1 in Hk. specialize (N1 k Hk).
+        destruct k; try discriminate N1; try reflexivity. congruence.
+      * rewrite F2. exact N2.
+    + apply Inv_h_del; [discriminate|exact Q].
+  - apply Inv_h_del; [discriminate|]. apply auth_armed; [|exact Hts|exact H].
+    split; [intros _; exact Hst|]. intros _ Hm. rewrite Hm in D. cbn [andb] in D. now apply negb_false_iff in D.
+Qed.
+
+Lemma handlers_h_add_congr k a b : handlers a = handlers b -> hkinds (h_add k a) = hkinds (h_add k b).
+Proof. intros E. unfold h_add, h_has, hkinds. rewrite E. destruct (existsb _ (handlers b)); sproj; rewrite ?E; reflexivity. Qed.
+
+(* the prefix of _handle_features only touches tls_support, the SASL list and the timers *)
+Definition pre_rel (s x : state) : Prop :=
+  core x = core s /\ handlers x = handlers s /\ tlsnew_ok x = tlsnew_ok s /\
+  (forall t, deep (set_tls_support t x) = deep (set_tls_support t s)) /\
+  secured x = secured s /\ f_tls_disabled x = f_tls_disabled s /\
+  (tls_support x = true -> secured s = false /\ f_tls_disabled s = false).
+Ltac pre_facts s x' :=
+  lazymatch type of x' with
+  | state =>
+      assert (pre_rel s x') by
+        (subst x';
+         repeat match goal with
+                | |- pre_rel _ (if ?c then _ else _) => destruct c eqn:?
+                end;
+         repeat match goal with H : pre_rel _ _ |- _ => destruct H as (? & ? & ? & ? & ? & ? & ?) end;
+         (split; [assumption|]); (split; [assumption|]); (split; [assumption|]);
+         (split; [let t := fresh in intro t; match goal with H : forall t, deep _ = deep _ |- _ => exact (H t) end|]);
+         (split; [assumption|]); (split; [assumption|]);
+         let Q := fresh in intros Q;
+         first [ discriminate Q | split; congruence | match goal with H : _ = true -> _ |- _ => exact (H Q) end ]);
+      clearbody x'
+  | _ => clearbody x'
+  end.
+
+Lemma deep_set_tlss_same s : deep (set_tls_support (tls_support s) s) = deep s.
+Proof. reflexivity. Qed.
+Lemma deep_set_tlss_congr t a b : deep a = deep b -> deep (set_tls_support t a) = deep (set_tls_support t b).
+Proof.
+  intros E. pose proof (deep_fields _ _ E) as (G1 & G2 & G3 & G4 & G5 & G6 & G7 & G8 & G9 & G10 & G11).
+  unfold deep. sproj. congruence.
+Qed.
+Lemma pre_rel_deep s x : pre_rel s x -> tls_support s = false -> tls_support x = false -> deep x = deep s.
+Proof.
+  intros (_ & _ & _ & P4 & _) Hs Hx. rewrite <- (deep_set_tlss_same x), <- (deep_set_tlss_same s), Hs, Hx. apply P4.
+Qed.
+Lemma pre_rel_starttls_deep s x k : pre_rel s x -> tls_support s = false ->
+  deep (set_tls_support false (h_add k x)) = deep (h_add k s).
+Proof.
+  intros (_ & P2 & _ & P4 & _) Hs.
+  set (Y := h_add k x).
+  change (deep (set_tls_support false Y)) with
+    (mkDeep (d_handlers (deep Y)) (d_ids (deep Y)) (d_oh (deep Y)) (d_ps (deep Y)) (d_secured (deep Y)) (d_tlsp (deep Y))
+            (d_tlsf (deep Y)) false (d_mand (deep Y)) (d_dis (deep Y)) (d_rp (deep Y))).
+  unfold Y. rewrite !h_add_deep. cbn [d_handlers d_ids d_oh d_ps d_secured d_tlsp d_tlsf d_tlss d_mand d_dis d_rp].
+  rewrite (handlers_h_add_congr k x s P2).
+  specialize (P4 false). pose proof (deep_fields _ _ P4) as (G1 & G2 & G3 & G4 & G5 & G6 & G7 & G8 & G9 & G10 & G11).
+  revert G1 G2 G3 G4 G5 G6 G7 G8 G9 G10 G11. sproj. intros.
+  unfold deep. cbn [d_handlers d_ids d_oh d_ps d_secured d_tlsp d_tlsf d_tlss d_mand d_dis d_rp]. rewrite Hs. congruence.
+Qed.
+
+Lemma auth_probe_fail f now s : tls_support s = true -> negb (tlsnew_ok s) = true ->
+  auth (S f) now s = auth f now (set_tls_support false s).
+Proof. intros A B. cbn [auth]. rewrite A, B. reflexivity. Qed.
+Lemma auth_starttls f now s : tls_support s = true -> negb (tlsnew_ok s) = false ->
+  auth (S f) now s = ret (set_tls_support false (send_gated WStartTls false false (h_add HProceedTls s))).
+Proof. intros A B. cbn [auth]. rewrite A, B. reflexivity. Qed.
+
+Lemma hkinds_h_del_eq k s : hkinds (h_del k s) = filter (fun y => negb (hkind_eqb k y)) (hkinds s).
+Proof.
+  unfold hkinds, h_del. sproj. induction (handlers s) as [|x l IH]; [reflexivity|].
+  cbn [filter map]. destruct (negb (hkind_eqb k (fst x))); cbn [map]; rewrite IH; reflexivity.
+Qed.
+Lemma h_del_deep_congr k a b : deep a = deep b -> deep (h_del k a) = deep (h_del k b).
+Proof.
+  intros E. rewrite !h_del_deep, !hkinds_h_del_eq, !hkinds_deep, E. reflexivity.
+Qed.
+
+Lemma hbody_features now e s acc :
+  In HFeatures (hkinds s) -> Inv MChunk None s acc -> RInv MChunk None acc (hbody HFeatures now e s).
+Proof.
+  intros Hin H. unfold hbody. cbv beta iota delta [call_handler].
+  (* the connection is live: in a disconnected chunk only the three inert handlers remain *)
+  assert (Hst : st s <> Disconnected).
+  { intros E. destruct (IM _ _ _ _ _ H) as (_ & _ & M3). destruct (M3 E) as [N1 _]. specialize (N1 _ Hin). discriminate N1. }
+  assert (Hts0 : tls_support s = false) by exact (Inv_tlss _ _ _ _ H).
+  assert (P0 : pre_rel s s).
+  { split; [reflexivity|]. split; [reflexivity|]. split; [reflexivity|]. split; [reflexivity|]. split; [reflexivity|]. split; [reflexivity|]. intros Q; congruence. }
+  repeat head_step_with ltac:(pre_facts s).
+  unfold RInv. cbn [fst snd].
+  pose proof H3 as HP. destruct H3 as (C3 & P2 & P3 & P4 & P5 & P6 & P7).
+  assert (Hx : forall y, core y = core s -> deep y = deep s -> Inv MChunk None y acc) by (intros y Cy Dy; apply (Inv_frame _ _ s); assumption).
+  destruct (tls_support x3) eqn:T.
+  - destruct (P7 eq_refl) as [Hsec Hdis].
+    destruct (negb (tlsnew_ok x3)) eqn:Tn.
+    + (* the probe fails: continue without TLS *)
+      rewrite (auth_probe_fail 0 now x3 T Tn) in Heqr.
+      set (x4 := set_tls_support false x3) in *.
+      assert (C4 : core x4 = core s) by exact C3.
+      assert (D4 : deep x4 = deep s) by (unfold x4; rewrite P4, <- Hts0; apply deep_set_tlss_same).
+      pose proof (auth_features_tail 0 now x4 acc eq_refl) as Q. rewrite Heqr in Q. apply Q.
+      * pose proof (core_fields _ _ C4) as (F1 & _). rewrite F1. exact Hst.
+      * apply Hx; assumption.
+    + (* <starttls/> is sent *)
+      rewrite (auth_starttls 0 now x3 T Tn) in Heqr. unfold ret in Heqr.
+      injection Heqr as <- <-. rewrite app_nil_r.
+      apply (Inv_frame _ _ (h_del HFeatures (h_add HProceedTls s))).
+      * rewrite !h_del_core. change (core (send_gated WStartTls false false (h_add HProceedTls x3)) = core (h_add HProceedTls s)).
+        rewrite send_gated_core, !h_add_core. exact C3.
+      * assert (E : deep (set_tls_support false (send_gated WStartTls false false (h_add HProceedTls x3))) = deep (h_add HProceedTls s)).
+        { rewrite <- (pre_rel_starttls_deep s x3 HProceedTls HP Hts0). apply deep_set_tlss_congr. apply send_gated_deep. }
+        apply h_del_deep_congr. exact E.
+      * apply Inv_h_del; [discriminate|]. apply Inv_h_add; try discriminate; try (intros; reflexivity); [|exact H].
+        intros _. split; [|intros _; exact Hsec]. destruct (IM _ _ _ _ _ H) as ((R1 & _) & _). exact R1.
+  - assert (D3 : deep x3 = deep s) by (apply pre_rel_deep; assumption).
+    pose proof (auth_features_tail 1 now x3 acc T) as Q. rewrite Heqr in Q. apply Q.
+    + pose proof (core_fields _ _ C3) as (F1 & _). rewrite F1. exact Hst.
+    + apply Hx; assumption.
+Qed.
